@@ -473,6 +473,15 @@ func VH_C08_PADataPrecedence() {
 	perms := [][3]int{{0, 1, 2}, {0, 2, 1}, {1, 0, 2}, {1, 2, 0}, {2, 0, 1}, {2, 1, 0}}
 	pw := zzverif.String(2)
 	saltPW, saltInfo, saltInfo2 := "P"+zzverif.String(1), "I"+zzverif.String(1), "J"+zzverif.String(1)
+	// a hint may carry no salt: the default salt then applies if that hint governs (param empty: bit per hint)
+	if empty := zzverif.Param("empty"); empty&2 != 0 {
+		saltInfo = ""
+	} else if empty&4 != 0 {
+		saltInfo2 = ""
+	}
+	if zzverif.Param("empty") == 6 {
+		saltInfo, saltInfo2 = "", ""
+	}
 	var pas types.PADataSequence
 	for _, h := range perms[order] {
 		if mask&(1<<uint(h)) == 0 {
@@ -500,6 +509,9 @@ func VH_C08_PADataPrecedence() {
 		want = saltInfo
 	case mask&1 != 0:
 		want = saltPW
+	}
+	if want == "" {
+		want = "Ru"
 	}
 	e, _ := GetEtype(18)
 	wk, _ := e.StringToKey(pw, want, e.GetDefaultStringToKeyParams())
